@@ -126,6 +126,6 @@ def replay(ctx, path):
         elif n == "SStart": lines.append("SStart %d" % e["st"])
         elif n == "SSwift": lines.append("SSwift")
         elif n == "SCheck": lines.append("SCheck %d" % e["now"])
-    t = ctx.drive(drv, lines, "replay")
+    t = ctx.drive(drv, lines + core.fault_line(d), "replay")
     ctx.report(ctx.judge("TimersTrace", [t]))
     return ctx.finish(rule="replay of " + path)
